@@ -9,7 +9,7 @@ func init() {
 			"that the leaf case of the split maps key comparison -1/0/+1 to left/exact/right, and that a nil (open) bound is never used as a real key without the nil test.",
 		NotCovered:  []string{"everything in node.go (push/split/pull/merge), i.e. the B+-tree itself", "equivalence with a sorted map over operation sequences", "all fan-out settings"},
 		Assumptions: []string{"accumulationSplit's inner-node recursion (node.go helpers) is correct"},
-		MinObl:      18,
+		MinObl:      22,
 		Run:         runC16,
 	})
 }
